@@ -34,7 +34,7 @@ func Flight(raws []json.RawMessage) ([]interface{}, error) {
 		rnd := rand.New(rand.NewSource(int64(i) + 1))
 		played, stuck, wrong := 0, 0, 0
 		sample := ""
-		deadline := time.Now().Add(40 * time.Second)
+		deadline := time.Now().Add(20 * time.Second)
 		for r := 0; r < c.Rounds && stuck == 0 && time.Now().Before(deadline); r++ {
 			var hc interface {
 				Get() (cache.Status, *cache.HTTPResponse)
@@ -86,9 +86,9 @@ func Flight(raws []json.RawMessage) ([]interface{}, error) {
 						sample = fmt.Sprintf("round %d: a waiter resumed with status %v after a %s completion", r, st, c.Completion)
 					}
 				}
-			case <-time.After(5 * time.Second):
+			case <-time.After(30 * time.Second):
 				stuck++
-				sample = fmt.Sprintf("round %d: waiters or the completion had not returned after 5 s", r)
+				sample = fmt.Sprintf("round %d: waiters or the completion had not returned after 30 s", r)
 			}
 		}
 		o := map[string]interface{}{"case": raw, "i": i, "played": played, "stuck": stuck, "wrong": wrong}
